@@ -197,7 +197,7 @@ pub fn gen_sm(rng: &mut Rng, k: &Knobs) -> Value {
     let can_start: Vec<Value> = (0..rng.below(5)).map(|_| json!(*rng.pick(&["ok", "ok", "ok", "deferred", "denied"]))).collect();
     let reboot_needed: Vec<Value> = (0..rng.below(5)).map(|_| json!(rng.below(100) < k.reboot_pct)).collect();
     let reboot_allowed: Vec<Value> = (0..rng.below(6)).map(|_| json!(rng.chance(1, 2))).collect();
-    let http: Vec<Value> = (0..rng.below(4 * k.max_checks + 1)).map(|_| rand_http(rng, &app_ids, k, cup_on)).collect();
+    let http: Vec<Value> = (0..(rng.below(2) * k.max_checks + rng.below(6 * k.max_checks + 1))).map(|_| rand_http(rng, &app_ids, k, cup_on)).collect();
     let plan: Vec<Value> = (0..rng.below(5)).map(|_| if rng.chance(1, 6) { Value::Null } else { json!(hex::encode(*rng.pick(&["plan-a", "plan-b", "plan-c"]))) }).collect();
     let perform: Vec<Value> = (0..rng.below(5)).map(|_| {
         let progress: Vec<u32> = (0..rng.below(4)).map(|_| *rng.pick(&[0f32.to_bits(), 0.25f32.to_bits(), 0.5f32.to_bits(), 1f32.to_bits(), f32::NAN.to_bits()])).collect();
@@ -281,6 +281,89 @@ pub fn run_input(input: &Value) -> Case {
     let n_checks = r.jtrace.iter().filter(|s| s.starts_with("result ")).count();
     let class = format!("{}{}checks{}{}", if input["entry"] == "oneshot" { "oneshot-" } else { "" }, if input["cup"].is_null() { "" } else { "cup-" }, n_checks.min(5),
                         if r.panic.is_some() { "-PANIC" } else if r.hang { "-HANG" } else { "" });
+    let features = trace_features(input, &r.jtrace);
     Case { gallina: sm::g_case(input, &r), json: out, class, nontrivial: n_http > 0 || n_checks > 0,
-           key: format!("{:?}", r.jtrace) }
+           key: format!("{:?}", r.jtrace), features }
+}
+
+/// Which paths of the state machine a run went through, read off the implementation's trace.  The evidence file
+/// reports, per feature, the number of cases that show it, so that a generator that stops reaching a path is visible.
+pub fn trace_features(input: &Value, t: &[String]) -> Vec<String> {
+    let mut f = std::collections::BTreeSet::<String>::new();
+    let mut in_check = false;
+    let mut in_reboot = false;
+    let mut attempts = 0usize;
+    let mut after_result = false;
+    f.insert(if input["entry"] == "oneshot" { "entry:oneshot".into() } else { "entry:start".into() });
+    f.insert(if input["cup"].is_null() { "cup:off".into() } else { "cup:on".into() });
+    for l in t {
+        if let Some(s) = l.strip_prefix("state ") {
+            let name = s.split('(').next().unwrap_or(s);
+            f.insert(format!("state:{}", name));
+            if name == "CheckingForUpdates" { in_check = true; attempts = 0; after_result = false; }
+            if name == "WaitingForReboot" { in_reboot = true; }
+            if name == "Idle" { in_check = false; in_reboot = false; }
+        } else if l.starts_with("http ") {
+            let kind = if l.contains("\"event\"") || l.contains("\"events\"") { "report" } else if l.contains("\"ping\"") && !l.contains("\"updatecheck\"") { "ping" } else { "check" };
+            let out = l.rsplit(" -> ").next().unwrap_or("");
+            let oc: String = if out.starts_with("default") { "unscripted-transport-error".into() }
+                     else if let Ok(v) = serde_json::from_str::<Value>(out) {
+                         if let Some(e) = v.get("err").and_then(|x| x.as_str()) { format!("err-{}", e) }
+                         else {
+                             let auth = v.get("auth").and_then(|x| x.as_str()).unwrap_or("none");
+                             let st = v.get("status").and_then(|x| x.as_u64()).unwrap_or(0);
+                             let body = if v["body"].get("bad").is_some() { "unparseable" } else { "doc" };
+                             if !v["retry_after"].as_array().map(|a| a.is_empty()).unwrap_or(true) { f.insert("http:retry-after-header".into()); }
+                             if auth != "genuine" && !input["cup"].is_null() { format!("forged-{}", auth) }
+                             else { format!("{}xx-{}", st / 100, body) }
+                         }
+                     } else { "other".into() };
+            f.insert(format!("http:{}:{}", kind, oc));
+            if kind == "check" { attempts += 1; f.insert(format!("attempts:{}", attempts.min(3))); }
+            if in_reboot { f.insert("reboot-wait:ping".into()); }
+        } else if let Some(s) = l.strip_prefix("result ") {
+            after_result = true; in_check = false;
+            if s.starts_with("Ok") {
+                f.insert("result:ok".into());
+                for k in ["NoUpdate", "Updated", "DeferredByPolicy", "DeniedByPolicy", "InstallPlanExecutionError"] {
+                    if s.contains(k) { f.insert(format!("app-result:{}", k)); }
+                }
+            } else {
+                let k = s.trim_start_matches("Err ").split('(').next().unwrap_or("").to_string();
+                f.insert(format!("result:err:{}", k));
+            }
+        } else if let Some(s) = l.strip_prefix("reply ") {
+            let k = s.split(' ').nth(1).unwrap_or("");
+            f.insert(format!("reply:{}", k));
+            if k == "AlreadyRunning" { f.insert(if in_reboot { "request:during-reboot-wait".into() } else { "request:during-check".into() }); }
+        } else if l.starts_with("request ") {
+            if l.ends_with("OnDemand") { f.insert("request:ondemand".into()); } else { f.insert("request:scheduled".into()); }
+            if in_reboot && l.ends_with("OnDemand") { f.insert("reboot-wait:ondemand-request".into()); }
+        } else if let Some(s) = l.strip_prefix("policy ") {
+            let q = s.split(' ').next().unwrap_or("");
+            let a = s.rsplit(" -> ").next().unwrap_or("");
+            let a = a.split(|c| c == '(' || c == ' ').next().unwrap_or("");
+            if q != "next_time" { f.insert(format!("policy:{}:{}", q, a)); }
+            if q == "next_time" && s.contains("t_min := (Some") { f.insert("wait:with-minimum".into()); }
+            if q == "next_time" && s.contains("poll=Some") { f.insert("poll-interval:in-force".into()); }
+        } else if let Some(s) = l.strip_prefix("store ") {
+            if s.ends_with("ok=false") { f.insert("storage:write-refused".into()); }
+            if after_result && s.starts_with("commit") { f.insert("persist:after-result".into()); }
+        } else if let Some(s) = l.strip_prefix("metric ") {
+            let k = s.split(|c| c == '(' || c == ' ' || c == '{').next().unwrap_or("");
+            f.insert(format!("metric:{}", k));
+        } else if l.starts_with("timer for") {
+            if in_check { f.insert("retry:backoff-wait".into()); }
+        } else if let Some(s) = l.strip_prefix("installer ") {
+            let k = s.split(' ').next().unwrap_or("");
+            f.insert(format!("installer:{}", k));
+            if k == "create_plan" && s.ends_with("-> None") { f.insert("installer:plan-refused".into()); }
+        } else if l == "handles dropped" {
+            f.insert("handles:dropped".into());
+        } else if l.starts_with("progress ") {
+            f.insert("install:progress".into());
+        }
+    }
+    let _ = in_check;
+    f.into_iter().collect()
 }
